@@ -169,9 +169,14 @@ func (c *canon) search(p int, code uint64, state int) {
 // Automorphisms returns every permutation p (vertex -> vertex) with
 // Has(i,j) == Has(p[i],p[j]) that additionally preserves class[] (nil: no classes).
 // Intended for n <= 8.
-func Automorphisms(g *G, class []int) [][]int {
+func Automorphisms(g *G, class []int) [][]int { return AutomorphismsLimit(g, class, 1<<30) }
+
+// AutomorphismsLimit is Automorphisms that gives up (returns nil) once more than limit
+// automorphisms have been found.
+func AutomorphismsLimit(g *G, class []int, limit int) [][]int {
 	n := g.N
 	var out [][]int
+	tooMany := false
 	p := make([]int, n)
 	used := make([]bool, n)
 	deg := make([]int, n)
@@ -180,8 +185,14 @@ func Automorphisms(g *G, class []int) [][]int {
 	}
 	var rec func(i int)
 	rec = func(i int) {
+		if tooMany {
+			return
+		}
 		if i == n {
 			out = append(out, append([]int(nil), p...))
+			if len(out) > limit {
+				tooMany = true
+			}
 			return
 		}
 		for v := 0; v < n; v++ {
@@ -205,6 +216,9 @@ func Automorphisms(g *G, class []int) [][]int {
 		}
 	}
 	rec(0)
+	if tooMany {
+		return nil
+	}
 	return out
 }
 
